@@ -171,7 +171,10 @@ func computeOracle(op *Op, ll []*LLValidator, variant string) Outcome {
 	return env.Exec(&o, ctx)
 }
 
+var iterBase, iterPermBase uint64
+
 func newSimFor(sc *Scenario, keep bool) *rt.Sim {
+	iterBase, iterPermBase = rt.IterCalls, rt.IterPermuted
 	validate.VerifResetGlobals()
 	sim := rt.NewSim(sc.Seed, sc.Pool)
 	sim.Names = validate.VerifPoolNames()
@@ -181,6 +184,8 @@ func newSimFor(sc *Scenario, keep bool) *rt.Sim {
 }
 
 func finishReport(rep *RunReport, sim *rt.Sim, opKinds []string) {
+	rep.fault("map-order-permuted (range over a map walked in a seeded non-sorted order)", int(rt.IterPermuted-iterPermBase))
+	rep.probe("map-ranges-seeded", int(rt.IterCalls-iterBase))
 	rep.EventHash = sim.Hash
 	rep.Stats = sim.Stats
 	rep.Edges = map[string]int{}
@@ -252,6 +257,15 @@ func runHistory(sc *Scenario, oc *oracleCache, keepLog bool, compareNR bool) *Ru
 		got := env.Exec(op, ctx)
 		kinds = append(kinds, op.Kind)
 		rep.Ops++
+		if !got.Valid && got.Panic == "" {
+			rep.probe("invalid-verdicts", 1)
+		}
+		if op.Data == "null" {
+			rep.probe("early-exit-nil-data", 1)
+		}
+		if op.UseNumber {
+			rep.probe("json-number-instances", 1)
+		}
 		if op.Fault != nil {
 			fired := env.LastReg != nil && env.LastReg.fired
 			if got.Panic != "" {
